@@ -485,6 +485,16 @@ def seed_family(sd):
     add("manycodes", lambda n, x: [n.eltwise("ADD", n.pool(n.conv(x, 8, 3), "MAX_POOL_2D", k=2, stride=1),
                                              n.unary("LOGISTIC", n.dwconv(n.cpu_op(n.unary("TANH", x), "ROUND"), 3)), oscale=0.1),
                                    custom(n, n.pool(x, "AVERAGE_POOL_2D"), "ThirdPartyOp", "c0")])
+    def dup_names(n, x):
+        # several tensors share one name (legal in TFLite): the writer sorts tensors by name, ties must not fall back to the
+        # iteration order of a set of objects (which follows memory addresses, i.e. the history of the process)
+        a = n.conv(x, 8, 3, name="x")
+        b = n.conv(x, 8, 1, name="x")
+        c = n.eltwise("ADD", a, b, name="x")
+        d = n.cpu_op(c, "ROUND", name="s")
+        e = n.cpu_op(d, "ROUND", name="s")
+        return [n.conv(e, 8, 1, name="s"), n.pool(c, name="x")]
+    add("dupnames", dup_names)
     add("multi_io", lambda n, x: [n.conv(x, 8, 1, name="zeta"), n.eltwise("ADD", x, n.fm("beta_in", [1, 8, 8, 8], is_input=True), name="alpha"),
                                   n.eltwise("MUL", n.fm("Gamma_in", [1, 8, 8, 8], is_input=True), x, name="Mid"),
                                   custom(n, n.fm("aux", [1, 8, 8, 8], is_input=True), "ThirdPartyOp", "c0")])
